@@ -286,6 +286,13 @@ void error (const char *fmt, ...) {
 
   va_start (args, fmt);
   len = vsnprintf (msg, sizeof(msg)-1, fmt, args);
+  if (len < 0)
+    {
+      msg[0] = 0;
+      len = 0;
+    }
+  else if (len > (int) sizeof(msg) - 3)
+    len = (int) sizeof(msg) - 3;	/* vsnprintf returns the untruncated length */
   if (len > 0 && msg[len-1] != '\n')
     {
       msg[len] = '\n';
